@@ -27,7 +27,7 @@ LineInfo(bytes) ==
        a  |-> IF isf THEN Address(f) ELSE 0]
 
 \* filt: <<>> (no -f) or <<sequence of DF numbers>>
-PassesFilter(df, filt) == filt = <<>> \/ df \in ToSet(filt[1])
+PassesFilter(df, filt) == IF filt = <<>> THEN TRUE ELSE df \in ToSet(filt[1])
 \* the frame is applied to the table
 Applied(li, filt) == li.isf /\ li.a # 0 /\ PassesFilter(li.df, filt)
 
@@ -222,7 +222,12 @@ CprY(f) == Field(f, 55, 71)
 CprX(f) == Field(f, 72, 88)
 CprI(f) == Bit(f, 54)
 SlotsAfter(slots, f, tlo, thi) ==
-  IF ~IsAirPos(f) THEN slots
+  IF IsSurface(f) THEN
+       \* surface-position squitters use the same even/odd memory in the decoder; whether they replace an
+       \* airborne frame there is outside C08: the slot of that parity becomes tainted
+       LET i == CprI(f) IN
+       [slots EXCEPT ![i + 1] = <<[y |-> CprY(f), x |-> CprX(f), tlo |-> tlo, thi |-> thi, taint |-> TRUE]>>]
+  ELSE IF ~IsAirPos(f) THEN slots
   ELSE LET i == CprI(f) IN
        IF CprY(f) = 0 \/ CprX(f) = 0
        THEN [slots EXCEPT ![i + 1] = IF slots[i + 1] = <<>> THEN <<>> ELSE <<[slots[i + 1][1] EXCEPT !.taint = TRUE]>>]
